@@ -176,7 +176,7 @@ def analyzeChunk (d : DType) (fl : Flags) (level : Nat) (c : DChunk) (vals : Lis
     s!"bodybits={bodyB} bodybytes={c.cm.bodyBytes} nprefs={ps.length} maxcode={maxcode} W={W} nus={us.length} " ++
     s!"metabits={(encChunkMeta gbFloat d fl c.cm).length + 8} prefbits={(ps.map fun p => (encPrefix gbFloat (prefDType d fl) fl c.cm.n (!fl.gcds || c.cm.commonGcd.isSome) p).length).foldl max 0} " ++
     s!"explains={(Train.explainsWhy (us.mergeSort (· ≤ ·)) level fl.gcds c.cm.commonGcd.isSome gbFloat ps).replace " " "_"} " ++
-    s!"lit={litTrainVerdict (prefDType d fl).uBits (prefDType d fl).physBits gbFloat us level fl.gcds c.cm.n ps} " ++
+    s!"lit={if level > 8 || us.length > 3000 then "skip" else litTrainVerdict (prefDType d fl).uBits (prefDType d fl).physBits gbFloat us level fl.gcds c.cm.n ps} " ++
     s!"huffopt={b01 huffopt} huffE={huffE} jlen={jlen} heavy={b01 heavy} dom={domCount} runs={runs} others={others} domjump={b01 domJump} allequal={b01 (us.all (· == us.headD 0))} tags={tags}"
   (str, blocks.map fun bs => { cm := c.cm, blocks := bs })
 
